@@ -214,6 +214,10 @@ class Graph(object):
             return ("v", comp.__name__, logged) if t != "rule" else plugins.make_pass("K%d" % i, n=i)
         if out == "none":
             return None
+        if out == "zero":
+            return 0                         # a produced value that is falsy (not None)
+        if out == "empty":
+            return []
         if out.startswith("list:"):
             n = int(out.split(":")[1])
             return [("elem", comp.__name__, logged, k) for k in range(n)]
@@ -404,6 +408,10 @@ def ref_eval(desc, names, in_graph=None):
             r.status = "fired"
             r.present = True
             r.value = ("rule-response", "none", "NONE_KEY") if t == "rule" else None
+        elif out in ("zero", "empty") and t != "rule":
+            r.status = "fired"
+            r.present = True
+            r.value = 0 if out == "zero" else []
         elif out.startswith("list:"):
             n = int(out.split(":")[1])
             r.status = "fired"
